@@ -35,6 +35,14 @@ CONSTS = [
     ("DEFAULT_MAX_PROVIDER_KEYS", KAD + "config.rs", const("DEFAULT_MAX_PROVIDER_KEYS")),
     ("DEFAULT_MAX_PROVIDER_ADDRESSES", KAD + "config.rs", const("DEFAULT_MAX_PROVIDER_ADDRESSES")),
     ("DEFAULT_MAX_PROVIDERS_PER_KEY", KAD + "config.rs", const("DEFAULT_MAX_PROVIDERS_PER_KEY")),
+    # C17 (callers of the store, refresh machinery): durations in seconds
+    ("KAD_MAX_ADDRESSES", KAD + "types.rs", const("MAX_ADDRESSES")),
+    ("DEFAULT_PROVIDER_TTL_SECS", KAD + "config.rs",
+     r"const\s+DEFAULT_PROVIDER_TTL\s*:\s*Duration\s*=\s*Duration::from_secs\(([^)]+)\)"),
+    ("DEFAULT_PROVIDER_REFRESH_INTERVAL_SECS", KAD + "config.rs",
+     r"const\s+DEFAULT_PROVIDER_REFRESH_INTERVAL\s*:\s*Duration\s*=\s*Duration::from_secs\(([^)]+)\)"),
+    ("DEFAULT_RECORD_TTL_SECS", KAD + "config.rs",
+     r"const\s+DEFAULT_TTL\s*:\s*Duration\s*=\s*Duration::from_secs\(([^)]+)\)"),
     # C15
     ("REPLICATION_FACTOR", KAD + "config.rs", const("REPLICATION_FACTOR")),
     ("PARALLELISM_FACTOR", KAD + "mod.rs", const("PARALLELISM_FACTOR")),
